@@ -162,8 +162,44 @@ class Sampled:
     pass
 
 
+MUTATIONS = []      # (class name, attribute, N) for every stored array whose bytes changed during a sample() call
+
+
+def snapshot(obj, depth=0):
+    """bytes of every ndarray / sparse matrix / scalar stored on the object (and on cuqi objects it holds)"""
+    import scipy.sparse as sp
+    out = {}
+    try:
+        items = list(vars(obj).items())
+    except TypeError:
+        return out
+    for k, v in items:
+        try:
+            if isinstance(v, np.ndarray):
+                if v.dtype != object:
+                    out[k] = (v.shape, v.dtype.str, v.tobytes())
+            elif sp.issparse(v):
+                if v.shape[0] * v.shape[1] <= 40000:
+                    out[k] = (v.shape, np.asarray(v.toarray()).tobytes())
+            elif isinstance(v, (int, float, np.number, str, bool)) or v is None:
+                out[k] = v
+            elif depth < 1 and type(v).__module__.startswith("cuqi") and hasattr(v, "__dict__") and "geometry" not in k.lower():
+                for kk, vv in snapshot(v, depth + 1).items():
+                    out[k + "." + kk] = vv
+        except Exception:
+            pass
+    return out
+
+
 def call_sample(dist, N, rng):
-    """run dist.sample(N, rng=rng); returns (value or None, error-class or None, global-state-unchanged)"""
+    """run dist.sample(N, rng=rng); returns (value or None, error-class or None, global-state-unchanged).
+    Side check on EVERY call: no stored array / scalar of the object changes during sampling."""
+    try:
+        with quiet():
+            _ = dist.dim          # lets lazily synchronised helpers (Lognormal._normal) settle before the snapshot
+    except Exception:
+        pass
+    snap0 = snapshot(dist)
     before = global_state_fingerprint()
     try:
         with quiet():
@@ -172,6 +208,10 @@ def call_sample(dist, N, rng):
     except Exception as e:  # noqa
         s, err = None, type(e).__name__ + ": " + str(e)[:100]
     after = global_state_fingerprint()
+    snap1 = snapshot(dist)
+    for k, v in snap0.items():
+        if k in snap1 and v is not None and not (snap1[k] == v or (v != v and snap1[k] != snap1[k])):   # None -> value: a lazily filled cache
+            MUTATIONS.append((type(dist).__name__, k, N, repr(dist)[:80]))
     return s, err, before == after
 
 
@@ -1819,3 +1859,367 @@ _run_part3 = run
 def run(ctx):   # noqa: F811
     _run_part3(ctx)
     run_histories(ctx, import_cuqi(), ctx.tier == "thorough")
+
+
+# ============================================================================= part 4: memory layouts, sample -> evaluate -> sample, setter input forms
+def vary(rs, v, force=None):
+    """the same value in another input form the setters accept; returns (object, form name)"""
+    import scipy.sparse as sp
+    if sp.issparse(v):
+        return v, "sparse-" + v.format
+    if np.isscalar(v) or (isinstance(v, np.ndarray) and v.ndim == 0):
+        x = float(v)
+        forms = ["float", "np.float64", "np.float32", "array1", "list1", "array0d"] + (["int"] if x.is_integer() else [])
+        f = force if force in forms else str(rs.choice(forms))
+        return {"float": lambda: x, "np.float64": lambda: np.float64(x), "np.float32": lambda: np.float32(x), "array1": lambda: np.array([x]),
+                "list1": lambda: [x], "array0d": lambda: np.array(x), "int": lambda: int(x)}[f](), f
+    a = np.asarray(v, dtype=float)
+    if a.ndim == 1:
+        forms = ["array", "list", "tuple", "strided", "readonly", "float32"] + (["intarray"] if np.all(a == np.round(a)) else [])
+        f = force if force in forms else str(rs.choice(forms))
+        if f == "list":
+            return a.tolist(), f
+        if f == "tuple":
+            return tuple(a.tolist()), f
+        if f == "strided":
+            big = np.full(2 * len(a), 7.0); big[::2] = a
+            return big[::2], f
+        if f == "readonly":
+            b = a.copy(); b.setflags(write=False)
+            return b, f
+        if f == "float32":
+            return a.astype(np.float32), f
+        if f == "intarray":
+            return a.astype(int), f
+        return a.copy(), "array"
+    forms = ["C", "F", "Tview", "strided", "readonly", "readonlyF", "listoflists"]
+    f = force if force in forms else str(rs.choice(forms))
+    if f == "F":
+        return np.asfortranarray(a), f
+    if f == "Tview":
+        return np.ascontiguousarray(a.T).T, f
+    if f == "strided":
+        big = np.full((2 * a.shape[0], 3 * a.shape[1]), 7.0); big[::2, ::3] = a
+        return big[::2, ::3], f
+    if f == "readonly":
+        b = np.ascontiguousarray(a); b.setflags(write=False)
+        return b, f
+    if f == "readonlyF":
+        b = np.asfortranarray(a); b.setflags(write=False)
+        return b, f
+    if f == "listoflists":
+        return a.tolist(), f
+    return np.ascontiguousarray(a), "C"
+
+
+def same_val(a, b):
+    return (a == b) or (a != a and b != b)
+
+
+def run_layouts(ctx, cuqi, thorough):
+    """(A) every matrix input in C order, F order, as transposed view, strided slice, read-only; on ONE object:
+    logpdf at probes -> sample -> stored bytes unchanged, logpdf unchanged -> sample again (same script) -> same draws,
+    equal to a fresh object's; first draws vs the model."""
+    import scipy.sparse as sp
+    from cuqi.distribution import Gaussian, Lognormal
+    rs = np.random.RandomState(ctx.seed + 508)
+    cases = []
+    for form in ("sqrtprec", "sqrtcov", "cov", "prec"):
+        for layout in ("C", "F", "Tview", "strided", "readonly", "readonlyF", "listoflists"):
+            for kind in ("full", "upper", "lower", "tridiag"):
+                if rs.rand() < (1.0 if (form == "sqrtprec" and kind in ("full", "tridiag")) or thorough else 0.45):
+                    cases.append((form, layout, kind, int(rint(rs, 2, 6))))
+    for layout in ("C", "F", "Tview"):          # spectral roots `(V*sqrt(w)).T` above the dense/sparse switch
+        cases.append(("cov", layout, "tridiag", 76)); cases.append(("prec", layout, "lowerbi", 77))
+        cases.append(("sqrtprec", layout, "tridiag", 76))
+    lines, metas = [], []
+    for (form, layout, kind, n) in cases:
+        M = gen_matrix(rs, kind, n)
+        if form in ("cov", "prec"):
+            M = M @ M.T
+        val, lname = vary(rs, M, force=layout)
+        input_bytes = np.asarray(val, dtype=float).tobytes()
+        mean = rint(rs, -3, 3, size=n).astype(float)
+        desc = {"family": "Gaussian", "form": form, "dim": n, "matrix": kind, "layout": lname, "value": M.tolist() if n <= 8 else "…", "mean": mean.tolist() if n <= 8 else "…"}
+        key = f"layout:Gaussian:{form}:{kind}:{lname}"
+        try:
+            with quiet():
+                G = Gaussian(mean.copy(), **{form: val})
+                fresh = Gaussian(mean.copy(), **{form: np.array(M, dtype=float, copy=True)})
+                assert int(G.dim) == n
+        except Exception as e:
+            ctx.note(f"layout: constructor refused {key}: {type(e).__name__}")
+            continue
+        probes = [mean + rint(rs, -2, 2, size=n) for _ in range(3)]
+        R0 = dense(G.sqrtprec).copy()
+        sp_flag = bool(sp.issparse(G.sqrtprec))
+        rec = {"lp": [], "S": [], "err": []}
+        rec["lp"].append([logpdf1(G, x) for x in probes])
+        for rep in range(2):
+            r = Script(unit_plan(n)); s_, e_, u_ = call_sample(G, n + 1, r)
+            rec["S"].append(values(s_) if e_ is None else None); rec["err"].append(e_)
+            rec["lp"].append([logpdf1(G, x) for x in probes])
+        s1, e1, _ = call_sample(G, 1, np.random.RandomState(11)); sF1, eF1, _ = call_sample(fresh, 1, np.random.RandomState(11))
+        rF = Script(unit_plan(n)); sF, eF, _ = call_sample(fresh, n + 1, rF)
+        rec["R_after"] = dense(G.sqrtprec).copy()
+        rec["input_after"] = np.asarray(val, dtype=float).tobytes()
+        colsel = list(range(n + 1)) if n <= 20 else [0, 1, n // 2, n]
+        cols = np.hstack([np.zeros((n, 1)), np.eye(n)]).T[colsel]
+        leaf_big = n > 20 and form != "sqrtprec"
+        lines.append("noop" if leaf_big else f"gauss {1 if sp_flag else 0} {qv(mean.tolist())} {qm(R0.tolist())} {qm(cols.tolist())}")
+        metas.append(dict(key=key, desc=desc, n=n, rec=rec, R0=R0, colsel=colsel, sF=(values(sF) if eF is None else None), eF=eF,
+                          s1=(values(s1) if e1 is None else e1), sF1=(values(sF1) if eF1 is None else eF1), input_bytes=input_bytes, leaf_big=leaf_big, mean=mean))
+    outs = ctx.lean.drive(lines)
+    for m, out in zip(metas, outs):
+        key, desc, n, rec = m["key"], m["desc"], m["n"], m["rec"]
+        ctx.case("layout", desc)
+        if rec["err"][0] is not None or m["eF"] is not None:
+            if (rec["err"][0] is None) != (m["eF"] is None):
+                ctx.disagree(key, desc, m["eF"], rec["err"][0], "raising depends on the memory layout of the input")
+                ctx.fail(key, desc, "a sample, as for a C-ordered copy of the same matrix", rec["err"][0], "sampling fails for this memory layout")
+            continue
+        S_a = rec["S"][0]
+        if not m["leaf_big"] and not out.startswith(("err", "bad")):
+            Sm = np.array([[float(x) for x in row] for row in pm(out.split(" ", 1)[1])]).T
+            if S_a.shape != (n, n + 1) or not mclose(S_a[:, m["colsel"]].tolist(), Sm.tolist(), 1e-9):
+                ctx.disagree(key, desc, Sm.tolist() if n <= 8 else "…", S_a.tolist() if n <= 8 else "…", "first draws vs model")
+        elif m["leaf_big"]:
+            off = S_a[:, 0]; B = S_a[:, 1:] - off[:, None]
+            if not mclose((m["R0"] @ B).tolist(), np.eye(n).tolist(), 1e-7):
+                ctx.disagree(key, desc, "sqrtprec B = I", "differs", "first draws vs stored factor (before sampling)")
+        problems = []
+        if not np.array_equal(rec["R_after"], m["R0"]):
+            problems.append(("stored sqrtprec unchanged by sample()", {"max_abs_change": float(np.abs(rec["R_after"] - m["R0"]).max())}))
+        if rec["input_after"] != m["input_bytes"]:
+            problems.append(("the user's input matrix unchanged by sample()", "changed"))
+        for k in (1, 2):
+            if not all(same_val(a, b) for a, b in zip(rec["lp"][0], rec["lp"][k])):
+                problems.append((f"logpdf at fixed probe points unchanged after sample call #{k}", {"before": rec["lp"][0], "after": rec["lp"][k]}))
+                break
+        if rec["err"][1] is not None or rec["S"][1] is None or not np.array_equal(rec["S"][1], S_a):
+            problems.append(("second sample call with the same generator script returns the same draws", rec["err"][1] or {"max_abs_diff": float(np.abs(rec["S"][1] - S_a).max())}))
+        if m["sF"] is None or not mclose(S_a.tolist(), m["sF"].tolist(), 1e-11):
+            problems.append(("draws equal those of a fresh object built from a C-ordered copy", "differ"))
+        if isinstance(m["s1"], str) or isinstance(m["sF1"], str) or not mclose(m["s1"].tolist(), m["sF1"].tolist(), 1e-9):
+            problems.append(("a later real-generator draw equals the fresh object's", "differs"))
+        for dmd, got in problems:
+            ctx.fail(key, desc, dmd, got, "sampling modifies the object / depends on the memory layout of the stored matrix")
+
+    # Lognormal composes the Gaussian: same sequence with F-ordered / transposed covariance
+    for layout in ("C", "F", "Tview", "strided", "readonlyF"):
+        for rep in range(ctx.scale):
+            n = int(rint(rs, 2, 4))
+            M = gen_matrix(rs, "full", n) / 2.0; M = M @ M.T
+            val, lname = vary(rs, M, force=layout)
+            mean = rint(rs, -1, 1, size=n).astype(float)
+            desc = {"family": "Lognormal", "dim": n, "layout": lname, "cov": M.tolist()}
+            key = f"layout:Lognormal:{lname}"
+            try:
+                with quiet():
+                    L = Lognormal(mean.copy(), val); fresh = Lognormal(mean.copy(), M.copy())
+            except Exception as e:
+                ctx.note(f"layout: Lognormal refused {lname}: {type(e).__name__}"); continue
+            ctx.case("layout", desc)
+            probes = [np.exp(mean + rint(rs, -1, 1, size=n) / 2.0) for _ in range(2)]
+            lp0 = [logpdf1(L, x) for x in probes]
+            sa, ea, _ = call_sample(L, 3, np.random.RandomState(5))
+            lp1 = [logpdf1(L, x) for x in probes]
+            sb, eb, _ = call_sample(L, 3, np.random.RandomState(5))
+            sf, ef, _ = call_sample(fresh, 3, np.random.RandomState(5))
+            if ea or eb or ef:
+                if not (ea and eb and ef):
+                    ctx.fail(key, desc, "a sample", str((ea, eb, ef)), "sampling fails for this memory layout")
+                continue
+            if not all(same_val(a, b) for a, b in zip(lp0, lp1)):
+                ctx.fail(key, desc, "logpdf unchanged by sample()", {"before": lp0, "after": lp1}, "sampling modifies the object")
+            if not (np.array_equal(values(sa), values(sb)) and mclose(values(sa).tolist(), values(sf).tolist(), 1e-9)):
+                ctx.fail(key, desc, "same draws on the second call and from a fresh object", "differ", "sampling modifies the object")
+
+
+def run_setter_forms(ctx, cuqi, thorough):
+    """(B) re-assignment through every input form a setter accepts (python int/float, np.float32/64, 0-d and
+    1-element arrays, lists, tuples, strided / read-only / integer arrays, F-ordered matrices …): after the
+    assignment the draws must be those of a fresh object built with the plain float value, and follow the
+    object's current logpdf."""
+    from cuqi.distribution import Gaussian, GMRF, Normal, Gamma, InverseGamma, Beta, Laplace, Cauchy, Uniform, Lognormal
+    rs = np.random.RandomState(ctx.seed + 509)
+    scalar_forms = ["float", "np.float64", "np.float32", "array1", "list1", "array0d", "int"]
+    vector_forms = ["array", "list", "tuple", "strided", "readonly", "float32", "intarray"]
+
+    def affine_steps(key, desc, obj, fresh, rows, n, singular=False, logvar=False):
+        """read-off on history object and fresh object, equality + current-density oracle"""
+        tgt = np.hstack([np.zeros((rows, 1)), np.eye(rows)])
+        pl = lambda method, shape, k: tgt if shape == tgt.shape else None  # noqa
+        r1 = Script(pl); s1, e1, u1 = call_sample(obj, rows + 1, r1)
+        r2 = Script(pl); s2, e2, u2 = call_sample(fresh, rows + 1, r2)
+        ctx.case("setter-form", desc)
+        if e1 is not None or e2 is not None:
+            # a value form the object cannot sample with (e.g. 0-d array: len() fails) is a refusal, not a wrong draw
+            ctx.case("setter-refused", {**desc, "error": e1 or e2}, nontrivial=False)
+            return
+        S1, S2 = values(s1), values(s2)
+        if logvar:
+            S1, S2 = np.log(S1), np.log(S2)
+        if S1.shape != S2.shape or not mclose(S1.tolist(), S2.tolist(), 1e-6 if singular else 1e-10):
+            ctx.fail(key, desc, "draws equal those of a fresh object constructed with the current value given as a plain float / C-ordered float64 array",
+                     {"history_object": S1.tolist(), "fresh_object": S2.tolist()}, "the value assigned in this input form does not (fully) reach the sampler")
+        if S1.shape == (n, rows + 1):
+            off = S1[:, 0].copy(); B = S1[:, 1:] - off[:, None]
+            affine_oracle(_LogVar(obj) if logvar else obj, off, B, key, desc, ctx, singular=singular, tol=1e-6)
+
+    # ---- GMRF: prec through every scalar form, mean through every vector form
+    for bc in ("zero", "neumann"):
+        for form in scalar_forms:
+            for order in ((1, 2) if thorough else (1,)):
+                n = int(rint(rs, 3, 6))
+                mean = rint(rs, -3, 3, size=n).astype(float)
+                p0 = float(rs.choice([4.0, 16.0]))
+                try:
+                    with quiet():
+                        G = GMRF(mean.copy(), p0, bc_type=bc, order=order)
+                except Exception:
+                    continue
+                rows = int(G._diff_op.shape[0]) if bc == "neumann" else n
+                call_sample(G, 2, np.random.RandomState(1))          # a first draw with the old precision
+                p1 = float(rs.choice([p for p in (1.0, 4.0, 16.0, 64.0) if p != p0]))
+                v, fname = vary(rs, p1, force=form)
+                desc = {"family": "GMRF", "bc": bc, "order": order, "n": n, "prec_before": p0, "prec_assigned": p1, "input_form": fname}
+                key = f"setter:GMRF:prec:{fname}"
+                try:
+                    with quiet():
+                        G.prec = v
+                        _ = logpdf1(G, mean)
+                except Exception as e:
+                    ctx.case("setter-refused", desc, nontrivial=False); continue
+                if rs.rand() < 0.5:
+                    mean = rint(rs, -3, 3, size=n).astype(float)
+                    mv, mname = vary(rs, mean, force=str(rs.choice(vector_forms)))
+                    desc["mean_form"] = mname
+                    try:
+                        with quiet():
+                            G.mean = mv
+                    except Exception:
+                        continue
+                with quiet():
+                    fresh = GMRF(mean.copy(), p1, bc_type=bc, order=order)
+                affine_steps(key, desc, G, fresh, rows, n, singular=(bc != "zero"))
+    # ---- Gaussian: scalar / vector / matrix forms of all four parameters (and of the mean)
+    for form in ("cov", "prec", "sqrtcov", "sqrtprec"):
+        for fname_ in scalar_forms + vector_forms + ["F", "Tview", "strided", "readonlyF", "listoflists"]:
+            n = int(rint(rs, 2, 5))
+            mean = rint(rs, -3, 3, size=n).astype(float)
+            kind0 = str(rs.choice(["scalar", "vector", "lower", "diag2d"]))
+            kind1 = "scalar" if fname_ in scalar_forms else ("vector" if fname_ in vector_forms else str(rs.choice(["full", "upper", "tridiag"])))
+            v0 = _gauss_value(rs, form, kind0, n)
+            v1 = _gauss_value(rs, form, kind1, n)
+            vin, fname = vary(rs, v1, force=fname_)
+            desc = {"family": "Gaussian", "form": form, "dim": n, "before": kind0, "assigned": kind1, "input_form": fname,
+                    "assigned_value": np.asarray(v1).tolist()}
+            key = f"setter:Gaussian:{form}:{fname}"
+            try:
+                with quiet():
+                    G = Gaussian(mean.copy(), **{form: v0})
+                    call_sample(G, 2, np.random.RandomState(1))
+                    setattr(G, form, vin)
+                    if rs.rand() < 0.4:
+                        mean = rint(rs, -3, 3, size=n).astype(float)
+                        G.mean = vary(rs, mean)[0]
+                    fresh = Gaussian(mean.copy(), **{form: (np.array(v1, dtype=float, copy=True) if not np.isscalar(v1) else float(v1))})
+                    assert int(G.dim) == n and int(fresh.dim) == n
+                    _ = logpdf1(G, mean)
+            except Exception as e:
+                ctx.case("setter-refused", desc, nontrivial=False); continue
+            affine_steps(key, desc, G, fresh, n, n)
+    # ---- Lognormal
+    for fname_ in scalar_forms + vector_forms:
+        n = int(rint(rs, 2, 4))
+        mean = rint(rs, -1, 1, size=n).astype(float)
+        v1 = _gauss_value(rs, "cov", "scalar" if fname_ in scalar_forms else "vector", n)
+        vin, fname = vary(rs, v1, force=fname_)
+        desc = {"family": "Lognormal", "dim": n, "input_form": fname, "assigned_cov": np.asarray(v1).tolist()}
+        try:
+            with quiet():
+                L = Lognormal(mean.copy(), 4.0)
+                call_sample(L, 2, np.random.RandomState(1))
+                L.cov = vin
+                fresh = Lognormal(mean.copy(), v1)
+                _ = logpdf1(L, np.exp(mean))
+        except Exception:
+            ctx.case("setter-refused", desc, nontrivial=False); continue
+        affine_steps(f"setter:Lognormal:cov:{fname}", desc, L, fresh, n, n, logvar=True)
+    # ---- iid families: every parameter through every form; recorded generator call and draws vs a fresh object
+    import scipy.stats as sps
+    fams = {
+        "normal": (Normal, ["mean", "std"]), "gamma": (Gamma, ["shape", "rate"]), "invgamma": (InverseGamma, ["shape", "location", "scale"]),
+        "beta": (Beta, ["alpha", "beta"]), "laplace": (Laplace, ["location", "scale"]), "uniform": (Uniform, ["low", "high"]),
+        "cauchy": (Cauchy, ["location", "scale"]),
+    }
+    base = {"normal": [1.0, 2.0], "gamma": [2.0, 4.0], "invgamma": [3.0, 0.0, 2.0], "beta": [2.0, 3.0], "laplace": [1.0, 2.0], "uniform": [0.0, 2.0], "cauchy": [1.0, 2.0]}
+    newv = {"normal": [3.0, 0.5], "gamma": [3.0, 0.25], "invgamma": [4.0, 1.0, 0.5], "beta": [3.0, 0.5], "laplace": [-2.0, 0.25], "uniform": [-1.0, 4.0], "cauchy": [-2.0, 0.5]}
+    for fam, (cls, names) in fams.items():
+        for j, nm in enumerate(names):
+            for fname_ in scalar_forms:
+                if fam == "uniform" and nm == "low":
+                    pass
+                pars = list(base[fam])
+                desc = {"family": fam, "parameter": nm, "input_form": fname_, "before": base[fam][j], "assigned": newv[fam][j]}
+                key = f"setter:{fam}:{nm}:{fname_}"
+                vin, fname = vary(rs, newv[fam][j], force=fname_)
+                if fname != fname_:
+                    continue
+                try:
+                    with quiet():
+                        D = cls(*pars)
+                        call_sample(D, 2, np.random.RandomState(1))
+                        setattr(D, nm, vin)
+                        pars[j] = newv[fam][j]
+                        fresh = cls(*pars)
+                except Exception:
+                    ctx.case("setter-refused", desc, nontrivial=False); continue
+                ctx.case("setter-form", desc)
+                K = 6
+                outs_ = []
+                for obj in (D, fresh):
+                    seen = {}
+
+                    class S3(Script):
+                        def _out(self, method, args, size):
+                            seen["m"] = (method, [np.asarray(a_, dtype=float).ravel().tolist() for a_ in args])
+                            return super()._out(method, args, size)
+                    s_, e_, _ = call_sample(obj, K, S3())
+                    outs_.append((e_, seen.get("m"), values(s_).tolist() if e_ is None else None))
+                (e1, c1, x1), (e2, c2, x2) = outs_
+                if e1 is not None or e2 is not None:
+                    ctx.case("setter-refused", {**desc, "error": e1 or e2}, nontrivial=False)
+                    continue
+                if c1 != c2 or not mclose(x1, x2, 1e-12):
+                    ctx.fail(key, desc, "generator call and draws equal those of a fresh object built with the plain float value",
+                             {"history_object": [c1, x1], "fresh_object": [c2, x2]}, "the value assigned in this input form does not reach the sampler")
+                    continue
+                try:
+                    logpdf1(D, np.array([0.375 if fam == "beta" else 1.5]))
+                except Exception as e:
+                    # the density cannot be evaluated with a parameter stored in this form (e.g. a python list): nothing to compare with
+                    ctx.case("setter-density-refuses", desc, nontrivial=False)
+                    continue
+                law_oracle(ctx, D, key, desc)
+
+
+_run_part4 = run
+
+
+def run(ctx):   # noqa: F811
+    _run_part4(ctx)
+    cuqi = import_cuqi()
+    run_layouts(ctx, cuqi, ctx.tier == "thorough")
+    run_setter_forms(ctx, cuqi, ctx.tier == "thorough")
+    # stored-state check made inside every call_sample of the whole run
+    seen = set()
+    for (cls, attr, N, rep) in MUTATIONS:
+        if (cls, attr) in seen:
+            continue
+        seen.add((cls, attr))
+        ctx.fail(f"mutation:{cls}:{attr}", {"object": rep, "N": N, "attribute": attr}, "sample() leaves every stored array / scalar of the distribution unchanged",
+                 "bytes changed during sample()", "sampling modifies the distribution object")
+    ctx.extra_cov["stored_state_snapshots"] = "every sample() call of the run"
+    del MUTATIONS[:]
